@@ -1662,6 +1662,7 @@ func extractC03(c *ctxT) {
 	sb.WriteString(c.c03DispatchLean())
 	sb.WriteString(c.c03ProgLean())
 	sb.WriteString(c.c03FlowLean(flowTypes, classOnly))
+	sb.WriteString(c.c03InterfaceLean())
 	sb.WriteString("end FxVerif.Gen.C03\n")
 	c.write("C03.lean", sb.String())
 	c.facts["C03.claims"] = factClaims
